@@ -163,7 +163,7 @@ pub fn materialise(spec: &CaseSpec, ex: &Exclusions) -> (Rendered, String, usize
     (render(&p), format!("multi-fault/{}", base.tier), applied)
 }
 
-fn demo_projects() -> Vec<(String, Rendered)> {
+pub fn demo_projects() -> Vec<(String, Rendered)> {
     // the checked-in projects, copied file by file (config, schema, extensions, sources)
     let repo = vcore::repo_root();
     let mut out = vec![];
@@ -208,6 +208,7 @@ pub fn run(args: &Args) {
          non-trivial = >= 3 source files, or >= 2 faults applied, or >= 10 artifacts; distinct by rendered files",
     );
     report.engine("subproc");
+    vcore::set_max_shrink_iters(120);
     report.assumption("tmpfs enumerates directory entries in an order that depends on creation order");
     report.assumption("cases on which the compiler crashes are C08's business and are skipped here (counted)");
     let ex = Exclusions::default();
@@ -232,7 +233,7 @@ pub fn run(args: &Args) {
         }
     }
 
-    let n = args.tier.pick(240, 12_000);
+    let n = args.tier.pick(160, 12_000);
     let res = vcore::run_prop_parallel(&report, "projects", n, vcore::num_workers(), cases::case_strategy, |spec| {
         let (r, label, faults) = materialise(spec, &ex);
         let res = check_files(&r);
